@@ -1331,3 +1331,210 @@ pub fn read(sh: Sh, text: &str, cmd: &str) -> Result<Script, String> {
         Sh::Pwsh => read_pwsh(text, cmd),
     }
 }
+
+// ---------------------------------------------------------------------------------------------
+// fish: within-word tables live in --global variables.  Explicit-state exploration of all call
+// histories of the wrapper functions (with the resets the script performs at its call sites):
+// after the last call the variables the matcher reads must be exactly those of a fresh call.
+// ---------------------------------------------------------------------------------------------
+
+#[derive(Clone, Debug)]
+enum FishStmt {
+    Set { name: String, index: Option<u32>, words: Vec<String> },
+    Call(String),
+}
+
+fn fish_function_stmts(text: &str) -> Result<BTreeMap<String, Vec<FishStmt>>, String> {
+    let chars: Vec<char> = text.chars().collect();
+    let mut cur = Cur { c: &chars, i: 0, sh: Sh::Fish, strings: vec![] };
+    let mut out: BTreeMap<String, Vec<FishStmt>> = BTreeMap::new();
+    let mut current: Option<String> = None;
+    while cur.i < chars.len() {
+        if current.is_none() {
+            let line = cur.rest_of_line();
+            cur.eat("\n");
+            if let Some(name) = line.strip_prefix("function ") {
+                current = Some(name.trim().to_string());
+                out.insert(name.trim().to_string(), vec![]);
+            }
+            continue;
+        }
+        if cur.eat("end\n") {
+            current = None;
+            continue;
+        }
+        let save = cur.i;
+        cur.skip_blanks();
+        if cur.eat("set ") {
+            let global = cur.eat("--global ");
+            let st = cur.i;
+            while matches!(cur.peek(), Some(c) if c.is_ascii_alphanumeric() || c == '_') {
+                cur.i += 1;
+            }
+            let name: String = cur.c[st..cur.i].iter().collect();
+            let mut index = None;
+            let mut ok = global && name.starts_with("subword_");
+            if cur.peek() == Some('[') {
+                cur.i += 1;
+                match cur.number() {
+                    Ok(n) => index = Some(n),
+                    Err(_) => ok = false,
+                }
+                if ok && cur.expect("]").is_err() {
+                    ok = false;
+                }
+            }
+            if ok {
+                if let Ok(words) = fish_words(&mut cur) {
+                    if !words.iter().any(|w| w.starts_with('$') || w.starts_with('(')) {
+                        out.get_mut(current.as_ref().unwrap()).unwrap().push(FishStmt::Set { name, index, words });
+                    }
+                }
+            }
+            let _ = save;
+            cur.rest_of_line();
+            cur.eat("\n");
+            continue;
+        }
+        let line = cur.rest_of_line();
+        cur.eat("\n");
+        let l = line.trim();
+        if l.starts_with('_') {
+            let callee = l.split(' ').next().unwrap_or("").to_string();
+            out.get_mut(current.as_ref().unwrap()).unwrap().push(FishStmt::Call(callee));
+        }
+    }
+    Ok(out)
+}
+
+type Globals = BTreeMap<String, Vec<String>>;
+
+fn fish_exec(fname: &str, funcs: &BTreeMap<String, Vec<FishStmt>>, g: &mut Globals, depth: usize) {
+    if depth > 3 {
+        return;
+    }
+    let Some(stmts) = funcs.get(fname) else { return };
+    for s in stmts {
+        match s {
+            FishStmt::Set { name, index: None, words } => {
+                g.insert(name.clone(), words.clone());
+            }
+            FishStmt::Set { name, index: Some(k), words } => {
+                let v = g.entry(name.clone()).or_default();
+                let k = *k as usize;
+                while v.len() < k {
+                    v.push(String::new());
+                }
+                if k >= 1 {
+                    v[k - 1] = words.join(" ");
+                }
+            }
+            FishStmt::Call(c) => {
+                if c.contains("_subword_shape_") {
+                    fish_exec(c, funcs, g, depth + 1);
+                }
+            }
+        }
+    }
+}
+
+/// the variables the shared matcher reads, given the loop bound it uses
+fn fish_visible(g: &Globals) -> Globals {
+    let maxl: usize = g.get("subword_max_fallback_level").and_then(|v| v.first()).and_then(|s| s.parse().ok()).unwrap_or(0);
+    let mut out = Globals::new();
+    for n in ["subword_literals", "subword_descrs", "subword_descr_literal_ids", "subword_descr_ids", "subword_literal_transitions_inputs", "subword_literal_transitions_tos", "subword_command_transitions", "subword_star_transitions_from", "subword_star_transitions_to", "subword_max_fallback_level"] {
+        out.insert(n.to_string(), g.get(n).cloned().unwrap_or_default());
+    }
+    for l in 0..=maxl {
+        for n in ["subword_literal_froms_level_", "subword_literal_inputs_level_", "subword_command_froms_level_", "subword_commands_level_"] {
+            let k = format!("{n}{l}");
+            out.insert(k.clone(), g.get(&k).cloned().unwrap_or_default());
+        }
+    }
+    // trailing empty elements of indexed lists are not observable
+    for v in out.values_mut() {
+        while v.last().map(|s| s.is_empty()).unwrap_or(false) {
+            v.pop();
+        }
+    }
+    out
+}
+
+/// returns (states, transitions) explored, or a description of an observable leftover
+pub fn fish_history_check(text: &str, cmd: &str, max_len: usize) -> Result<(u64, u64), String> {
+    let funcs = fish_function_stmts(text)?;
+    let prefix = format!("_{cmd}_subword_");
+    let ids: Vec<String> = funcs.keys().filter(|k| k.starts_with(&prefix) && k[prefix.len()..].chars().all(|c| c.is_ascii_digit()) && k.len() > prefix.len()).cloned().collect();
+    if ids.len() < 2 {
+        return Ok((0, 0));
+    }
+    // resets performed by the script right before each kind of call site
+    let main_text: String = {
+        let start = text.find(&format!("function _{cmd}\n")).ok_or("no main function")?;
+        text[start..].to_string()
+    };
+    let mut sites: Vec<Vec<String>> = vec![];
+    let mut pending: Vec<String> = vec![];
+    for line in main_text.lines() {
+        let l = line.trim();
+        if let Some(rest) = l.strip_prefix("set --global subword_") {
+            if !rest.contains(' ') {
+                pending.push(format!("subword_{rest}"));
+            }
+        } else if l.contains(&format!("_{cmd}_subword_$")) {
+            sites.push(std::mem::take(&mut pending));
+        }
+    }
+    if sites.is_empty() {
+        return Err("no call site of a within-word wrapper found in the main function".into());
+    }
+    let call = |g: &mut Globals, site: usize, id: &str| {
+        for r in &sites[site] {
+            g.insert(r.clone(), vec![]);
+        }
+        fish_exec(id, &funcs, g, 0);
+    };
+    // fresh results
+    let mut fresh: BTreeMap<(usize, String), Globals> = BTreeMap::new();
+    for s in 0..sites.len() {
+        for id in &ids {
+            let mut g = Globals::new();
+            call(&mut g, s, id);
+            fresh.insert((s, id.clone()), fish_visible(&g));
+        }
+    }
+    // BFS over histories, state = canonical variable map
+    let mut seen: std::collections::BTreeSet<String> = std::collections::BTreeSet::new();
+    let mut q: std::collections::VecDeque<(Globals, usize, Vec<String>)> = std::collections::VecDeque::new();
+    q.push_back((Globals::new(), 0, vec![]));
+    let mut states = 0u64;
+    let mut transitions = 0u64;
+    while let Some((g, len, hist)) = q.pop_front() {
+        states += 1;
+        if len >= max_len {
+            continue;
+        }
+        for s in 0..sites.len() {
+            for id in &ids {
+                transitions += 1;
+                let mut g2 = g.clone();
+                call(&mut g2, s, id);
+                let vis = fish_visible(&g2);
+                let want = &fresh[&(s, id.clone())];
+                if &vis != want {
+                    let diff: Vec<String> = vis.iter().filter(|(k, v)| want.get(*k) != Some(*v)).map(|(k, v)| format!("{k}={v:?} (fresh: {:?})", want.get(k))).collect();
+                    let mut h = hist.clone();
+                    h.push(format!("{id}@site{s}"));
+                    return Err(format!("after the call history [{}] the within-word matcher sees leftovers of an earlier call: {}", h.join(", "), diff.join("; ")));
+                }
+                let key = format!("{g2:?}");
+                if seen.insert(key) {
+                    let mut h = hist.clone();
+                    h.push(format!("{id}@site{s}"));
+                    q.push_back((g2, len + 1, h));
+                }
+            }
+        }
+    }
+    Ok((states, transitions))
+}
